@@ -139,6 +139,7 @@ type scenario struct {
 	idToL      map[string]uint64
 	us         []uEvent
 	handlerRet int64
+	dups       map[string]int // wire ID -> "received more than once" warnings
 	rawSent    int64
 	rawFail    int64
 	badPayload int64
@@ -167,6 +168,16 @@ func (c *evCtx) Done() <-chan struct{} {
 
 func (sc *scenario) onLog(node int) func(ev p2pnet.LogEvent) {
 	return func(ev p2pnet.LogEvent) {
+		if ev.Class == "dup-response" {
+			// inside onResponse's default branch: resMu held, the ID is registered
+			sc.mu.Lock()
+			if sc.dups == nil {
+				sc.dups = map[string]int{}
+			}
+			sc.dups[ev.Arg]++
+			sc.mu.Unlock()
+			return
+		}
 		if ev.Class != "unknown-id" {
 			return
 		}
@@ -567,7 +578,7 @@ func (sc *scenario) waitDrained() bool {
 			dropped := int64(0)
 			for _, n := range sc.nodes {
 				respErr += int64(n.Logger.Count("respond-error"))
-				dropped += int64(n.Logger.Count("decode-error") + n.Logger.Count("unregistered") + n.Logger.Count("stream-read-error") + n.Logger.Count("ratelimit-error"))
+				dropped += int64(n.Logger.Count("decode-error") + n.Logger.Count("dup-response") + n.Logger.Count("unregistered") + n.Logger.Count("stream-read-error") + n.Logger.Count("ratelimit-error"))
 			}
 			if delivered+us+dropped >= sent-respErr {
 				return true
@@ -664,6 +675,22 @@ func (sc *scenario) judge(sp spec, fired map[string]int) {
 			} else if o.PeerID != sc.nodes[p.To].ID() {
 				k.Violation("miscorrelation:response-peer-id",
 					"Response.PeerID() is not the peer the request was sent to", wit())
+			}
+		}
+
+		// lost replies, registered form: per wire ID the responder sent 1 + Dup responses; the
+		// response channel holds one, so at most Dup of them can legitimately be refused as
+		// "received more than once". One refusal more means a reply was dropped although its
+		// request was registered and nothing had been delivered to it.
+		for _, in := range st.inv {
+			if d := sc.dups[in.ID]; d > 0 {
+				k.Count("responses_refused_as_duplicate", d)
+				if d > p.Dup {
+					w := wit()
+					w["wire_id"], w["refused_as_duplicate"], w["responses_sent_for_wire_id_at_most"] = in.ID, d, 1+p.Dup
+					k.Violation("lost-response:reply-refused-as-duplicate-although-none-was-delivered",
+						"onResponse refused more responses of one wire ID as 'received more than once' than duplicates were sent: a reply to a registered request was dropped instead of delivered", w)
+				}
 			}
 		}
 
